@@ -32,7 +32,7 @@ const REAL: [&str; 6] = [
     "std::io::BufWriter (when the buffer layer is drawn)",
     "Fst::new / Map::new / Set::new, accessors, verify, stream/range/search/set operations (restart and read-back side)",
     "std::io::Write::write_all retry loop (Interrupted, short writes)",
-    "fst built with overflow-checks and debug-assertions on",
+    "fst built twice: with overflow checks and debug assertions on (first pass) and with both off (second pass, profile `plain`)",
 ];
 const STUBS: [&str; 4] = [
     "SimSink: the file (acceptance lengths, Interrupted, errors, Ok(0), flush results, crash point, at-rest and in-flight corruption) is a model of a device, not a kernel",
